@@ -93,6 +93,7 @@ const (
 	Panicked
 	Dropped // infeasible / assumption failed / bound
 	Aborted // engine limitation
+	MergedRet
 )
 
 type State struct {
@@ -126,6 +127,9 @@ type State struct {
 	markImp   int
 	logging   bool
 	Depth     int // number of forks on this path
+	StopDepth   int   // callee merging: stop when the frame stack gets shallower than this
+	MergeResult Value
+	Steps0      int
 	ClockLast *smt.Term
 }
 
